@@ -43,6 +43,18 @@ Theorem C11_nested_returns : forall c msgs k sched s,
 Proof. exact nested_returns. Qed.
 Print Assumptions C11_nested_returns.
 
+(* the hand-off from the socket reader into the receive queue (tcp pushToReceivedMessageQueue, udp Conn.Process) is
+   the single producer of the model: whatever the queue size and whatever the consumer loops, external callers and
+   the closer do, the messages taken out of the queue so far, the queue content and the messages still to be
+   pushed are, in this order, the arrival sequence (both shapes of the code); what was taken out is exactly what
+   the loops hold or have dispatched *)
+Theorem C11_enqueue_in_order : forall c msgs k sched s,
+  run c (init msgs k) sched = Some s ->
+  exists taken, msgs = taken ++ queue s ++ prod s /\
+                Permutation taken (map fst (log s) ++ held (loops s)).
+Proof. exact enqueue_in_order. Qed.
+Print Assumptions C11_enqueue_in_order.
+
 (* arrival order, repaired code: messages are committed to their handlers (readingMessages.Store(false))
    in arrival order, in every run *)
 Theorem C11_commit_in_order : forall c msgs k sched s,
